@@ -92,8 +92,16 @@ func C04(env *Env) {
 			lvl := elemOf(pat.Field(ti, "TcbLevels"), &lp)
 			var cl, tl string
 			cpuI := iterFrom(pat.Const("0"), &cl)
-			start := pat.Op(flow.OpIte, "", pat.Bin("<", pat.Const("0"), pat.Op(flow.OpIndex, "", tee, pat.Const("1"))), pat.Const("2"), pat.Const("0"))
+			ver := pat.Op(flow.OpIndex, "", tee, pat.Const("1"))
+			start := pat.OneOf(
+				pat.Op(flow.OpIte, "", pat.OneOf(pat.Bin("<", pat.Const("0"), ver), pat.Bin("!=", pat.Const("0"), ver)), pat.Const("2"), pat.Const("0")),
+				pat.Op(flow.OpIte, "", pat.Bin("==", pat.Const("0"), ver), pat.Const("0"), pat.Const("2")))
 			tdxI := iterFrom(start, &tl)
+			// the same loop written over all indices with the skipped prefix passed over:
+			// for every i from 0: start <= i implies the comparison
+			tdx0 := iterFrom(pat.Const("0"), &tl)
+			tdxSkipForm := pat.Op("implies", "", pat.Bin("<=", start, tdx0),
+				pat.Bin("<=", pat.Field(pat.Op(flow.OpIndex, "", pat.Field(lvl, "Tcb", "TdxTcbcomponents"), tdx0), "Svn"), pat.Op(flow.OpIndex, "", tee, tdx0)))
 			mask := pat.Field(ti, "TdxModule", "AttributesMask", "Bytes")
 			seam := pat.Is(fieldT(q.Body, "SeamAttributes"))
 			specs := []gateSpec{
@@ -111,13 +119,14 @@ func C04(env *Env) {
 				{rule: "SEL/platform", name: "sgx-components", forall: true, m: pat.Bin("<=", pat.Field(pat.Op(flow.OpIndex, "", pat.Field(lvl, "Tcb", "SgxTcbcomponents"), cpuI), "Svn"), pat.Op(flow.OpIndex, "", pat.Field(ext, "TCB", "CPUSvnComponents"), cpuI)), expect: "for every i: level.sgxtcbcomponents[i].svn <= PCK CPUSVN component[i]"},
 				{rule: "SEL/platform", name: "pcesvn", m: pat.Bin("<=", pat.Field(lvl, "Tcb", "Pcesvn"), pat.Field(ext, "TCB", "PCESvn")), expect: "level.pcesvn <= PCK PCESVN"},
 				{rule: "SEL/platform", name: "tdx-len", m: pat.Bin("==", pat.Len(tee), pat.Len(pat.Field(lvl, "Tcb", "TdxTcbcomponents"))), expect: "len(TEE_TCB_SVN) == len(level.tdxtcbcomponents)"},
-				{rule: "SEL/platform", name: "tdx-components", forall: true, m: pat.Bin("<=", pat.Field(pat.Op(flow.OpIndex, "", pat.Field(lvl, "Tcb", "TdxTcbcomponents"), tdxI), "Svn"), pat.Op(flow.OpIndex, "", tee, tdxI)), expect: "for every i from (TEE_TCB_SVN[1] > 0 ? 2 : 0): level.tdxtcbcomponents[i].svn <= TEE_TCB_SVN[i]"},
+				{rule: "SEL/platform", name: "tdx-components", forall: true, m: pat.OneOf(pat.Bin("<=", pat.Field(pat.Op(flow.OpIndex, "", pat.Field(lvl, "Tcb", "TdxTcbcomponents"), tdxI), "Svn"), pat.Op(flow.OpIndex, "", tee, tdxI)), tdxSkipForm), expect: "for every i from (TEE_TCB_SVN[1] > 0 ? 2 : 0): level.tdxtcbcomponents[i].svn <= TEE_TCB_SVN[i]"},
 				{rule: "VERDICT", name: "platform-status", m: pat.Bin("==", pat.Field(lvl, "TcbStatus"), pat.Const(`"UpToDate"`)), expect: "status of the selected platform TCB level == UpToDate"},
 			}
 			env.requireGates(e, []*flow.Alt{a}, pn, specs)
 			// the inner loops run over the whole component vectors
-			env.c04FullRange(a, cl, pat.Len(pat.Field(ext, "TCB", "CPUSvnComponents")), "sgx-components", pn)
-			env.c04FullRange(a, tl, pat.Len(tee), "tdx-components", pn)
+			// (either vector of the pair bounds the loop: their lengths are gated equal above)
+			env.c04FullRange(a, cl, pat.OneOf(pat.Len(pat.Field(ext, "TCB", "CPUSvnComponents")), pat.Len(pat.Field(lvl, "Tcb", "SgxTcbcomponents"))), "sgx-components", pn)
+			env.c04FullRange(a, tl, pat.OneOf(pat.Len(tee), pat.Len(pat.Field(lvl, "Tcb", "TdxTcbcomponents"))), "tdx-components", pn)
 			if lp != "" {
 				env.firstMatch(e, lp, "platform|"+pn)
 				var allowed []pat.M
@@ -187,7 +196,7 @@ func (env *Env) c04FullRange(a *flow.Alt, loop string, bound pat.M, name, part s
 				env.R.OK("C04/SEL/platform", name+"-range|"+part, env.P.Pos(g.Pos), "loop continues while i < len(vector)")
 				return
 			}
-			env.R.Fail("C04/SEL/platform", name+"-range|"+part, env.P.Pos(g.Pos), "the component comparison loop must run while i < len(platform vector); continues while "+g.Dom.String())
+			env.R.Fail("C04/SEL/platform", name+"-range|"+part, env.P.Pos(g.Pos), "the component comparison loop must run while i < len(component vector); continues while "+g.Dom.String())
 			return
 		}
 	}
